@@ -78,6 +78,12 @@ Cfg_nested == Mk(1, 1, <<SetR("cts", 0, 2, 0), SetR("ts", 0, 1, 1)>>,
     d2 |-> <<O("await", 1, 0, 0), O("cancel", 1, 0, 0)>>],
    <<(<<O("new", 2, 0, 0), O("sched", 2, 2, 0), O("sched", 2, 3, 0), O("wait", 2, 0, 0), O("del", 2, 0, 0)>>), <<>>, <<>>>>,
    NoThrow(3), 1, {"w0"})
+\* the same with one inner task (small enough for the quick tier)
+Cfg_nested1 == Mk(1, 1, <<SetR("cts", 0, 2, 0), SetR("ts", 0, 1, 1)>>,
+   [d1 |-> <<O("new", 1, 0, 0), O("schedfq", 1, 1, 0), O("wait", 1, 0, 0), O("sync", 0, 0, 0), O("del", 1, 0, 0)>>,
+    d2 |-> <<O("await", 1, 0, 0), O("cancel", 1, 0, 0)>>],
+   <<(<<O("new", 2, 0, 0), O("sched", 2, 2, 0), O("wait", 2, 0, 0), O("del", 2, 0, 0)>>), <<>>>>,
+   NoThrow(2), 1, {"w0"})
 \* racing throwers, repeated tryWait/wait (C05)
 Cfg_exc == Mk(2, 4, <<SetR("cts", 0, 4, 0)>>,
    [d1 |-> <<O("new", 1, 0, 0), O("schedfq", 1, 1, 0), O("schedfq", 1, 2, 0), O("bulkfq", 1, 3, 1),
